@@ -870,7 +870,8 @@ package httpserver
 //@ func newVHostTrie
 //@   ensures result != nil && result.edges != nil && len(result.fallbackHosts) == 3
 
-//@ unit middleware_compile props=C09,C01 filter=`httpserver\.NewServer$|httpserver\.SiteConfig\)\.AddMiddleware$`
+//@ unit middleware_compile props=C09,C01,C17 filter=`httpserver\.NewServer$|httpserver\.SiteConfig\)\.AddMiddleware$`
+//@ ghost headerLimitApplied int
 //@ // C09 "middleware compiled innermost-last from the per-site list": a directive's setup appends its middleware to the
 //@ // site's list (so the list is in directive order, unit execute_directives), and NewServer wraps from the LAST entry to the
 //@ // FIRST, each around the chain built so far, and files the site in the trie only with the complete chain: the first
@@ -893,7 +894,11 @@ package httpserver
 //@   pure
 //@ func NewServer
 //@   // a site's header limit is never negative (the `limits` setup rejects such a value: unit limits_parse)
-//@   requires forall(k, 0, len(group), group[k] != nil && group[k].Limits.MaxRequestHeaderSize >= 0)
+//@   requires forall(k, 0, len(group), group[k] != nil && group[k].Limits.MaxRequestHeaderSize >= 0) && headerLimitApplied == 0
+//@   // C17 "shared limits strictest" on EVERY listener of the group: the HTTP/3 server copies the header limit of the TCP
+//@   // server, so it is made after the strictest limit of the co-hosted sites was put there
+//@   at call makeHTTPServerWithHeaderLimit do headerLimitApplied = 1
+//@   at call fieldstore:Server.quicServer before [http3_listener_is_made_after_the_shared_header_limit] headerLimitApplied == 1
 //@   at call dynamic#1 before [each_entry_wraps_the_chain_built_from_the_later_ones] 0 <= i && i < len(site.middleware) && callee == site.middleware[i] && arg0 == stack
 //@   at call (*vhostTrie).Insert before [site_is_filed_with_its_complete_chain] i == -1 && site.middlewareChain == stack
 //@   at call (*vhostTrie).Insert before [site_is_filed_under_its_address_as_written] arg1 == site.Addr.VHost() && arg2 == site && arg0 == s.vhosts
